@@ -245,7 +245,18 @@ class Run:
                 summ, files = B.emit(S, cfg['template'], a, work)
             except B.EmitError as e:
                 self.unsupported.append({'unsupported': 'Engine B emit: %s' % e}); continue
-            if summ and isinstance(summ[0], list): summ = summ[-1]      # product template: the files on disk are the last build's
+            if summ and isinstance(summ[0], list):
+                if cfg.get('pair_bytes') and all(isinstance(x, list) and x and x[0] == 'ok' for x in summ):
+                    # both descriptions of the pair were emitted with the real backend: the files must be byte-identical
+                    builds = B.emitted_builds(work)
+                    info['pairs_compared'] = info.get('pairs_compared', 0) + 1
+                    if len(builds) == 2 and builds[0] != builds[1]:
+                        diff = [k for k in sorted(set(builds[0]) | set(builds[1])) if builds[0].get(k) != builds[1].get(k)]
+                        self.violations.append({'slice': 'engine-b', 'template': cfg['template'], 'query': 'emitted-files-are-byte-identical', 'args': [to_i64(x) for x in a],
+                                                'expected': 'both descriptions of the pair emit the same bytes', 'native': 'files that differ: %s' % diff})
+                    elif len(builds) != 2:
+                        self.unsupported.append({'unsupported': 'Engine B: expected the files of two builds, found %d' % len(builds)})
+                summ = summ[-1]      # product template: the files on disk are the last build's
             if summ[0] != 'ok' or 'm.rs' not in files:
                 self.mismatches.append({'slice': 'engine-b', 'args': a, 'interpreted': 'ok', 'native': summ}); continue
             if cfg.get('accept') and not cfg['accept'](summ): continue
